@@ -3,7 +3,7 @@
 The tool is built as shipped (tool objects + shared libeav.so, both ASan+UBSan) and run on generated files; its stdout/stderr/
 exit status are checked against a 15-line model of the documented trimming plus the stand-alone library's verdict and message
 for every resulting address (default settings)."""
-import collections, os, random, re, resource, subprocess
+import threading, time, collections, os, random, re, resource, subprocess
 from .. import core, ctx as _ctx, build, driver, gen, model as _model, addrgen as AG
 
 PROP = "C20"
@@ -150,15 +150,55 @@ def w_files(tool, libdir, exe, files, workdir, wid):
         i += k
         group += 1
         paths = []
+        kinds = []
+        fifo_jobs = []
+        stdin_data = None
+        odd = (group % 5 == 2 and k < 24)
         for j, data in enumerate(chunk):
             p = os.path.join(d, "f%d_%d.txt" % (group, j))
-            with open(p, "wb") as f:
-                f.write(data)
+            if odd and j == 0 and len(data) < 60000:
+                # the same bytes through a FIFO whose writer turns up late, or through /dev/stdin (an input file need not be a regular file)
+                if group % 10 == 2:
+                    os.mkfifo(p)
+                    fifo_jobs.append((p, data))
+                else:
+                    p = "/dev/stdin"
+                    stdin_data = data
+            else:
+                with open(p, "wb") as f:
+                    f.write(data)
             paths.append(p)
+            kinds.append("file")
+        if odd:
+            # arguments that are not readable files, among good ones: a directory (opens, cannot be read), a missing path; the
+            # verdicts of the other files must be unaffected and the tool must come to an end
+            dp = os.path.join(d, "dir%d" % group)
+            os.makedirs(dp, exist_ok=True)
+            pos = group % (len(paths) + 1)
+            paths.insert(pos, dp); kinds.insert(pos, "dir"); chunk = chunk[:pos] + [b""] + chunk[pos:]
+            mp = os.path.join(d, "missing%d" % group)
+            pos = (group // 3) % (len(paths) + 1)
+            paths.insert(pos, mp); kinds.insert(pos, "missing"); chunk = chunk[:pos] + [b""] + chunk[pos:]
+            cnt["odd-argument-invocations"] += 1
+        writers = []
+        for fp, data in fifo_jobs:
+            def _w(fp=fp, data=data):
+                time.sleep(0.3)
+                try:
+                    with open(fp, "wb") as f:
+                        f.write(data)
+                except OSError:
+                    pass
+            th = threading.Thread(target=_w, daemon=True)
+            th.start()
+            writers.append(th)
         # many files: with a low descriptor limit, so that a tool which does not close its files runs out
         pre = (lambda: resource.setrlimit(resource.RLIMIT_NOFILE, (48, 48))) if k >= 24 else None
+        sin = dict(input=stdin_data) if stdin_data is not None else dict(stdin=subprocess.DEVNULL)
         try:
-            if group % 4 == 1:
+            if odd:
+                pr = subprocess.run([tool] + paths, stdout=subprocess.PIPE, stderr=subprocess.PIPE, env=env, timeout=120, **sin)
+            elif group % 4 == 1:
                 # stdout redirected to a regular file (fully buffered stdio) instead of a pipe
                 op = os.path.join(d, "out%d.txt" % group)
                 with open(op, "wb") as fo:
@@ -168,19 +208,35 @@ def w_files(tool, libdir, exe, files, workdir, wid):
             else:
                 pr = subprocess.run([tool] + paths, stdout=subprocess.PIPE, stderr=subprocess.PIPE, env=env, timeout=300, preexec_fn=pre)
         except subprocess.TimeoutExpired:
-            part["viol"].append(("hang", {"files": [core.b2s(x)[:200] for x in chunk]}, {"timeout_s": 300}))
+            part["viol"].append(("hang" + ("/with-directory-and-missing-path-arguments" if odd else ""),
+                                 {"files": [core.b2s(x)[:200] for x in chunk], "arguments": kinds}, {"timeout_s": 120 if odd else 300}))
+            for fp, _ in fifo_jobs:            # release a writer that is still blocked in open()
+                try:
+                    fd = os.open(fp, os.O_RDONLY | os.O_NONBLOCK); os.close(fd)
+                except OSError:
+                    pass
             continue
+        for fp, _ in fifo_jobs:
+            try:
+                fd = os.open(fp, os.O_RDONLY | os.O_NONBLOCK); os.close(fd)
+            except OSError:
+                pass
         cnt["invocations"] += 1
         cnt["files"] += len(chunk)
         err = pr.stderr.decode("utf-8", "replace")
         # expected, in reverse argv order
         exp = []
         per_file = []
-        for data in reversed(chunk):
-            ml = model_lines(data)
+        for data, kd in zip(reversed(chunk), reversed(kinds)):
+            if kd == "missing":
+                continue                          # "failed to open": no verdicts, no tally
+            ml = model_lines(data) if kd == "file" else []
             per_file.append(ml)
             exp += ml
         wit = {"files_hex": [x.hex()[:600] for x in chunk], "files": [core.b2s(x)[:200] for x in chunk]}
+        if odd:
+            wit["arguments"] = ["%s%s" % (kd, ":fifo" if pp in [f for f, _ in fifo_jobs] else ":stdin" if pp == "/dev/stdin" else "")
+                                for kd, pp in zip(kinds, paths)]
         if pr.returncode != 0 or "Sanitizer" in err or "runtime error" in err or "Assertion" in err:
             sig = driver.crash_signature(err, pr.returncode)
             # minimise: which single file reproduces?
@@ -225,8 +281,14 @@ def w_files(tool, libdir, exe, files, workdir, wid):
             exp_t.append((str(p_), str(len(ml) - p_)))
         if tallies != exp_t:
             part["viol"].append(("stderr-tally", wit, {"stderr": err[-400:], "expected": exp_t}))
-        for p in paths:
-            os.unlink(p)
+        for p, kd in zip(paths, kinds):
+            try:
+                if kd == "dir":
+                    os.rmdir(p)
+                elif kd == "file" and p != "/dev/stdin":
+                    os.unlink(p)
+            except OSError:
+                pass
     part["distinct"] = len(files)
     if files:
         part["samples"].append({"source": "files", "file": core.b2s(files[len(files) // 2][:160])})
